@@ -28,6 +28,9 @@ def neutral(sid):
 caught = sum(1 for s in seeded if s['exit'] == 1 and not neutral(s['id']))
 live = sum(1 for s in seeded if not neutral(s['id']))
 out.append(f'**Seeded changes (independent sub-agents): {caught} of {live} caught by the quick check of the broken property** ({len(seeded) - live} further change(s) no longer break their property on the repaired tree and are listed as neutralised).\n')
+stale = [l.split()[0] for l in open(f'{root}/seeded/MATRIX.txt') if 'PATCH-DOES-NOT-APPLY' in l or 'BUILD-FAIL' in l]
+if stale:
+    out.append(f'{len(stale)} changes of earlier rounds ({", ".join(stale)}) were written against a commit before the repairs of D20 / D21 and no longer apply to (or build on) the repaired tree, which rewrote the functions they change; each was caught when it was installed (history of `seeded/MATRIX.txt`) and is left out of the table.\n')
 out.append('| seeded change | what it does (see notes.md) | check | result | first violated clause |')
 out.append('|---|---|---|---|---|')
 for s in seeded:
